@@ -56,6 +56,10 @@ pub struct Flags {
     /// neighbouring float and the intended one (the nearest float is still the intended one)
     #[serde(default)]
     pub long_decimals: bool,
+    /// both output paths (the binary file and the text written on the way back) already exist and
+    /// hold more bytes than the tools are about to write: an earlier, larger result of the same kind
+    #[serde(default)]
+    pub stale_outputs: bool,
 }
 
 #[derive(Serialize, Deserialize, Clone, Debug)]
@@ -216,9 +220,9 @@ fn flags() -> BoxedStrategy<Flags> {
             any::<bool>(),
         ),
         (1u8..=16, any::<bool>(), style()),
-        (proptest::option::of((any::<u16>(), any::<u16>(), any::<u16>())), prop::bool::weighted(0.3), proptest::option::of((any::<u32>(), 30u8..=100)), 0u8..3, prop::bool::weighted(0.3), prop::bool::weighted(0.25)),
+        (proptest::option::of((any::<u16>(), any::<u16>(), any::<u16>())), prop::bool::weighted(0.3), proptest::option::of((any::<u32>(), 30u8..=100)), 0u8..3, prop::bool::weighted(0.3), prop::bool::weighted(0.25), prop::bool::weighted(0.25)),
     )
-        .prop_map(|((threads, parallel, single_pass, inmemory, uncompressed), (block_size, zooms, style, ucsc), (back_threads, back_inmemory, back_style), (restrict, restrict_chrom_only, delay, restrict_which, no_final_newline, long_decimals))| Flags {
+        .prop_map(|((threads, parallel, single_pass, inmemory, uncompressed), (block_size, zooms, style, ucsc), (back_threads, back_inmemory, back_style), (restrict, restrict_chrom_only, delay, restrict_which, no_final_newline, long_decimals, stale_outputs))| Flags {
             threads,
             parallel,
             single_pass,
@@ -237,6 +241,7 @@ fn flags() -> BoxedStrategy<Flags> {
             delay,
             no_final_newline,
             long_decimals,
+            stale_outputs,
         })
         .boxed()
 }
@@ -246,7 +251,7 @@ impl Prop for C16 {
     const ID: &'static str = "C16";
     fn rule() -> String {
         "canonical multi-chromosome bedGraph / BED text (names [A-Za-z0-9_.]+, sorted; positive-length values; fixed column count) + chromosome-size file; bedgraphtobigwig then bigwigtobedgraph, bedtobigbed then bigbedtobed, \
-         with -t 1..16, --parallel auto|yes|no, --single-pass, --inmemory, --uncompressed, --block-size, --zooms, invoked as the dedicated binary, as `bigtools <subcommand>`, through mixed-case names of both, and with UCSC spellings (-unc, -blockSize=N, -chrom=, -start=, -end=), optionally under a BIGTOOLS_VERIF_DELAY schedule; \
+         with -t 1..16, --parallel auto|yes|no, --single-pass, --inmemory, --uncompressed, --block-size, --zooms, invoked as the dedicated binary, as `bigtools <subcommand>`, through mixed-case names of both, and with UCSC spellings (-unc, -blockSize=N, -chrom=, -start=, -end=), optionally under a BIGTOOLS_VERIF_DELAY schedule, and with both output paths already holding an older, longer result; \
          oracle: exit status 0, records in order with numerically equal f32 values / byte-identical extra columns; restricted output (--chrom [--start --end]) equals the clipped range answer (bigWig) / the must-may answer (bigBed). \
          non-trivial = -t > 1 with --parallel yes and >= 3 chromosomes, OR a UCSC-style restricted query; distinct = distinct case JSON"
             .into()
@@ -317,6 +322,22 @@ impl Prop for C16 {
         obs.label_if(f.no_final_newline, "input-without-final-newline");
         std::fs::write(p("in.txt"), &text).map_err(|e| e.to_string())?;
         std::fs::write(p("sizes"), &sizes).map_err(|e| e.to_string())?;
+        if f.stale_outputs {
+            // an earlier, larger result at both output paths: well-formed records of another run, so a tool
+            // that does not start from an empty file leaves a tail that parses
+            obs.label("output-paths-already-exist-and-are-longer");
+            let mut old = text.clone();
+            if !old.ends_with('\n') {
+                old.push('\n');
+            }
+            for k in 0..400u32 {
+                old.push_str(&if is_bw { format!("zzStale\t{}\t{}\t7.5\n", k * 10, k * 10 + 5) } else { format!("zzStale\t{}\t{}\told{}\n", k * 10, k * 10 + 5, k) });
+            }
+            std::fs::write(p("back.txt"), &old).map_err(|e| e.to_string())?;
+            let mut oldbin = vec![0xA5u8; 256 * 1024 + text.len() * 4];
+            oldbin[..4].copy_from_slice(&[0x26, 0xFC, 0x8F, 0x88]);
+            std::fs::write(p("out.bb"), &oldbin).map_err(|e| e.to_string())?;
+        }
         // forward
         let tool = if is_bw { "bedgraphtobigwig" } else { "bedtobigbed" };
         let (prog, mut args) = invoke(tool, f.style, dir.path())?;
